@@ -1,6 +1,6 @@
 import IstioModel.C15.Driver
 def main (args : List String) : IO Unit :=
   if args.head? == some "classify" then
-    IstioModel.Wire.run ({} : IstioModel.C15.State) IstioModel.C15.stepC
+    IstioModel.Wire.run ({} : IstioModel.C15.CState) IstioModel.C15.stepClassify
   else
     IstioModel.Wire.run ({} : IstioModel.C15.State) IstioModel.C15.stepD
